@@ -377,6 +377,82 @@ pub fn run_check(replay: Option<Value>) -> i32 {
         }
     }
 
+    // method names: the documented strings select the documented methods (a run asked for by name is the run of
+    // that method)
+    {
+        let names: [(&str, Method); 14] = [
+            ("RK23", Method::RK23), ("rk23", Method::RK23), ("DOPRI5", Method::DOPRI5), ("dopri5", Method::DOPRI5), ("RK45", Method::DOPRI5), ("rk45", Method::DOPRI5),
+            ("DOP853", Method::DOP853), ("dop853", Method::DOP853), ("RK4", Method::RK4), ("rk4", Method::RK4), ("RADAU", Method::RADAU), ("Radau", Method::RADAU),
+            ("BDF", Method::BDF), ("bdf", Method::BDF),
+        ];
+        for (name, want) in names {
+            rep.evaluations += 1;
+            rep.validated += 1;
+            let got = crate::util::guarded(|| Method::from(name));
+            *rep.tags.entry("method-names".into()).or_insert(0) += 1;
+            if got.as_ref().map(|g| *g != want).unwrap_or(true) {
+                let key = format!("methodname:{}", name);
+                rep.violations.push(Violation::new(&key, "method-name", format!("Method::from({:?}) gives {:?}, documented: {:?}", name, got, want), json!({"key": key})).with("mode", "names"));
+            }
+        }
+    }
+
+    // the sample a run with first_step (and no t_eval) reports at x0 + first_step is a sample of the solution like
+    // every other one - also when the first attempt is rejected and the first accepted step is shorter, or when a
+    // first step of 0.995 of the span is stretched to the end
+    {
+        let fprobs = [(base(Base::Harmonic(1.5)), 2.0), (base(Base::Logistic(2.0)), 1.5)];
+        for m in M5 {
+            for (pi, (p0, span)) in fprobs.iter().enumerate() {
+                for backward in [false, true] {
+                    for (fi, frac) in [0.5, 0.995, 0.02, 0.25].iter().enumerate() {
+                        for tol in [1e-4, 1e-8] {
+                            let p = if backward { reflect(p0) } else { p0.clone() };
+                            let xend = if backward { -*span } else { *span };
+                            let mut c = Cfg::new(m, 0.0, xend, &p.y0).tol(tol, tol * 1e-2);
+                            c.user_jac = true;
+                            c.first_step = Some(frac * xend);
+                            let r = run(&p, &c);
+                            rep.evaluations += 1;
+                            rep.transitions += r.st.n_ode;
+                            let key = format!("firstsample:{}:{}:{}:{}:{:e}", mname(m), pi, backward as u8, fi, tol);
+                            let s = match r.sol() {
+                                Some(s) if s.status == Status::Success => s,
+                                _ => {
+                                    rep.violations.push(Violation::new(&key, "not-solved", format!("{} with first_step = {} span ended with {}", mname(m), frac, r.outcome_name()), json!({"key": key})).with("method", mname(m)).with("mode", "first-step"));
+                                    continue;
+                                }
+                            };
+                            let kap = kappa(&p, 0.0, &p.y0, xend).max(1.0);
+                            let nacc = s.naccpt.max(1) as f64;
+                            let mut worst: (f64, f64) = (0.0, 0.0);
+                            for (t, y) in s.t.iter().zip(&s.y) {
+                                let ex = p.exact(0.0, &p.y0, *t).unwrap();
+                                let ymax = ex.iter().fold(0.0f64, |a, b| a.max(b.abs()));
+                                let e = y.iter().zip(&ex).fold(0.0f64, |a, (u, v)| a.max((u - v).abs())) / (50.0 * kap * nacc * (tol * 1e-2 + tol * ymax));
+                                if e > worst.0 {
+                                    worst = (e, *t);
+                                }
+                            }
+                            rep.validated += s.t.len() as u64;
+                            *rep.tags.entry("first-step-samples".into()).or_insert(0) += 1;
+                            if s.nrejct > 0 {
+                                *rep.tags.entry("first-step-samples-after-rejection".into()).or_insert(0) += 1;
+                            }
+                            if worst.0 > 1.0 {
+                                rep.violations.push(
+                                    Violation::new(&key, "first-step-sample", format!("{}{} with first_step = {} span, tol {:e}: the sample at t = {:e} is off by {:.1} times the bound 50 kappa naccpt (atol + rtol |y|)", mname(m), if backward { " backward" } else { "" }, frac, tol, worst.1, worst.0), json!({"key": key}))
+                                        .with("method", mname(m))
+                                        .with("mode", "first-step"),
+                                );
+                            }
+                        }
+                    }
+                }
+            }
+        }
+    }
+
     // RK4: fourth-order global convergence as the step is refined
     let rk4_jobs: Vec<(usize, Dir)> = (0..vars.len()).flat_map(|vi| DIRS.iter().map(move |d| (vi, *d))).collect();
     let outs = par_map(rk4_jobs.len(), |j| {
@@ -528,7 +604,9 @@ pub fn run_check(replay: Option<Value>) -> i32 {
         });
         rep.absorb(outs.into_iter().flatten().collect());
     }
-    if only.is_some() {
+    if let Some(o) = &only {
+        // (the blocks that are not driven by a lattice index run as a whole: keep the replayed case's verdict only)
+        rep.violations.retain(|v| &v.key == o);
         for v in &rep.violations {
             println!("replay: VIOLATED [{}]: {}\n{}", v.sig["check"], v.msg, serde_json::to_string_pretty(&v.case).unwrap());
         }
